@@ -12,6 +12,7 @@ OpAssigns == {"+=", "-=", "*=", "/=", "^="}
 Targets == {"var", "idx1", "idx2", "range", "all", "field"}
 Subs == {"s", "ss", "all", "alls", "sall", "range", "rangeincl", "rangestep", "vec", "mask", "dot", "dotint", "brace", "swizzle", "chain2", "dotidx"}
 Lits == {"int", "float", "neg", "hex", "oct", "bin", "dec", "sci", "scineg", "scicap", "rat", "cplx", "cplxneg", "imag", "typed", "annot", "str", "stresc", "strnl", "strraw", "strtab", "strsp", "strempty",
+         "strqend", "strqstart", "strqonly", "strq2end", "strbsend", "strbsonly", "strbsq", "strq2mid", "strq3mid", "strbrace", "struni", "strsemi", "strdash",
          "atom", "empty", "true", "false", "big", "leaddot"}
 
 Cases ==
